@@ -1,6 +1,6 @@
 (* C10/Props.v — property-level theorems only. Tags are read by bin/check. *)
 From Coq Require Import List NArith Lia.
-From BLB Require Import Meta.AMap Meta.Curator Meta.CuratorFacts Meta.CuratorInv Meta.Master C10.Proofs C10.ProofsMaster C10.ProofsNoCrash C11.ProofsInv C11.ProofsG.
+From BLB Require Import Meta.AMap Meta.Curator Meta.CuratorFacts Meta.CuratorInv Meta.Master C10.Proofs C10.ProofsMaster C10.ProofsNoCrash C10.ProofsReplica C11.ProofsInv C11.ProofsG.
 Import ListNotations.
 Open Scope N_scope.
 
@@ -43,18 +43,17 @@ Theorem restart_agree :
 Proof. exact restart_agree_lemma. Qed.
 Print Assumptions restart_agree.
 
-(* [FULL] master with the REPAIRED restore (decode into a fresh State, fixes/F7): for every command list, snapshot point j and earlier point k, the replica at k that restores the snapshot of j and applies the commands after j ends in the same state with the same results; harmless = its own last checksum pair is not contradicted by a later ChecksumVerify *)
+(* [FULL] master with the repaired restore, decode into a fresh State, commit ca0788b: for every command list whose checksum rounds have the shape ConsistencyCheck produces, raft indices distinct and every ChecksumVerify carrying the index and the checksum of an earlier ChecksumRequest of the same list, every snapshot point j and every earlier point k, the replica at k that restores the snapshot of j and applies the commands after j ends in the same state with the same results. No other hypothesis on the commands *)
 Theorem replicas_agree_master :
   forall (cs : list (N * mcmd)) (k j : nat) sk rk sj rj sfull rfull,
-    (k <= j)%nat -> (j <= length cs)%nat ->
+    (k <= j)%nat -> (j <= length cs)%nat -> cc_shaped cs ->
     mapply_all (m_init, mv_init) (firstn k cs) = Some (sk, rk) ->
     mapply_all (m_init, mv_init) (firstn j cs) = Some (sj, rj) ->
     mapply_all (m_init, mv_init) cs = Some (sfull, rfull) ->
-    harmless (snd sk) (skipn j cs) ->
     exists s' r',
       mapply_all (restore_fresh sk (msnapshot sj)) (skipn j cs) = Some (s', r') /\
       fst s' = fst sfull /\ r' = skipn j rfull.
-Proof. exact replicas_agree_master_lemma. Qed.
+Proof. exact replicas_agree_master_cc_lemma. Qed.
 Print Assumptions replicas_agree_master.
 
 (* [REFUTED] master with the CURRENT restore (gob decoding into the live struct, restore_merge): SetReadOnly true, SetReadOnly false, RegisterCurator, NewPartition with k = 1 and j = 2 ends in a different state and returns different results, finding F7 *)
@@ -92,6 +91,18 @@ Proof.
   intros cs s r i c H S. destruct (reachable_ok _ _ _ H). apply no_crash_lemma; auto.
 Qed.
 Print Assumptions no_crash_on_api_commands_state_relative.
+
+(* [FULL] curator, snapshot restore, re-delivery and restart in one reachability relation: H is a history a straight replica went through when handed submittable commands, with checksum rounds as ConsistencyCheck builds them. A replica fed H in any of the ways raft feeds a state machine, the next command, an already applied command again, a restart, or the restore of a snapshot taken at ANY point j of the same history, earlier or later than the replica, always holds the database of the prefix n of H, never dies on a command it may be handed, leaves its database alone on a re-delivery, and answers the next command exactly as the straight replica did. Subsumes replicas_agree and restart_agree for submittable histories and extends no_crash_on_api_commands to replicas that restored snapshots *)
+Theorem replica_tracks_history :
+  forall H n s, hist_ok H -> rreach H n s ->
+    (n <= length H)%nat /\
+    (exists rn, dapply_all d_init (firstn n H) = Some (fst s, rn)) /\
+    forall p i c, (p <= n)%nat -> nth_error H p = Some (i, c) ->
+      exists s' r, apply s i c = Some (s', r) /\
+        (p = n -> forall dfull rfull, dapply_all d_init H = Some (dfull, rfull) -> nth_error rfull n = Some r) /\
+        (p < n -> fst s' = fst s)%nat.
+Proof. exact replica_tracks_history_lemma. Qed.
+Print Assumptions replica_tracks_history.
 
 (* [FULL] master: only a ChecksumVerify that contradicts the replica's own checksum at that index kills a master replica *)
 Theorem no_crash_on_api_commands_master :
@@ -148,4 +159,58 @@ Proof.
       rewrite Es. eexists. split; [rewrite <- Es; exact Hin|]. split; [vm_compute; reflexivity|vm_compute; reflexivity].
     + split; [reflexivity|]. rewrite Es in Ea. vm_compute in Ea. injection Ea as _ <-. reflexivity.
   - exfalso. rewrite Es in Ea. vm_compute in Ea. discriminate.
+Qed.
+
+(* non-vacuity of replica_tracks_history: a replica applies two commands, restores the snapshot taken after six (a
+   restore in the middle), is handed command 4 again, restarts, and applies command 7 *)
+Definition ex_h : list (N * cmd) :=
+  [(1, CSetReg 1); (2, CAddPart 1); (3, CCreate 3 (1600000000 * nano) 0 0); (4, CExtend 4294967297 0 [[1; 2; 3]]);
+   (5, CChecksum None None 2 77); (6, CDelete 4294967297 (1600000005 * nano)); (7, CCreate 2 (1600000007 * nano) 0 0);
+   (8, CFinishDelete (1600000009 * nano) [4294967297; 4294967297])].
+Example ex_h_simple : Forall (fun e => simple_sub (snd e)) ex_h.
+Proof.
+  repeat constructor; cbn; auto; try (intros n Hn; discriminate Hn);
+    repeat constructor; unfold host_ok, two20; lia.
+Qed.
+Example ex_h_ok : hist_ok ex_h.
+Proof.
+  split; [|split].
+  - destruct (apply_all s_init ex_h) as [[s rs]|] eqn:E; [|vm_compute in E; discriminate].
+    destruct (shist_of_run ex_h [] [d_init] s_init s rs sh_init ex_h_simple E) as [past R]. eauto.
+  - intros i1 sb sr n ock i2 ix ck H1 H2. cbn in H2. repeat (destruct H2 as [H2|H2]; [discriminate|]). contradiction.
+  - intros i ix ck H2. cbn in H2. repeat (destruct H2 as [H2|H2]; [discriminate|]). contradiction.
+Qed.
+Example ex_replica_with_restore :
+  exists s, rreach ex_h 7 s /\ d_index (fst s) = 7 /\ length (d_blobs (fst s)) = 2%nat.
+Proof.
+  pose (c := fun k => match nth_error ex_h k with Some e => e | None => (0, CSetRO false) end).
+  pose (s1 := nxt s_init 1 (snd (c 0%nat))). pose (s2 := nxt s1 2 (snd (c 1%nat))).
+  pose (d6 := match dapply_all d_init (firstn 6 ex_h) with Some (d, _) => d | None => d_init end).
+  pose (r6 := match dapply_all d_init (firstn 6 ex_h) with Some (_, r) => r | None => [] end).
+  pose (s3 := restore s2 d6). pose (s4 := nxt s3 4 (snd (c 3%nat))). pose (s5 := restart s4).
+  pose (s6 := nxt s5 7 (snd (c 6%nat))).
+  assert (R1 : rreach ex_h 1 s1) by (eapply (rr_next ex_h 0 s_init 1); [constructor|reflexivity|apply apply_nxt; vm_compute; discriminate]).
+  assert (R2 : rreach ex_h 2 s2) by (eapply (rr_next ex_h 1 s1 2); [exact R1|reflexivity|apply apply_nxt; vm_compute; discriminate]).
+  assert (R3 : rreach ex_h (Nat.max 2 6) s3) by (eapply (rr_restore ex_h 2 s2 6 d6 r6); [exact R2|cbn; lia|vm_compute; reflexivity]).
+  assert (R4 : rreach ex_h 6 s4) by (eapply (rr_again ex_h 6 s3 3 4); [exact R3|lia|reflexivity|apply apply_nxt; vm_compute; discriminate]).
+  assert (R5 : rreach ex_h 6 s5) by (apply rr_restart; exact R4).
+  assert (R6 : rreach ex_h 7 s6) by (eapply (rr_next ex_h 6 s5 7); [exact R5|reflexivity|apply apply_nxt; vm_compute; discriminate]).
+  exists s6. split; [exact R6|]. split; vm_compute; reflexivity.
+Qed.
+
+(* non-vacuity of replicas_agree_master: a ConsistencyCheck round (request at raft index 2, verify carrying its result)
+   straddling a read-only episode; snapshot after 5 restored onto the replica at 3 (which is read-only and holds the
+   checksum pair of index 2) *)
+Example ex_master_cc : cc_shaped f7_cc_example.
+Proof.
+  split; [repeat constructor; cbn; intuition discriminate|].
+  intros q i ix ck Hq. destruct q as [|[|[|[|[|[|q]]]]]]; cbn in Hq; try discriminate; [|destruct q; discriminate].
+  injection Hq as <- <- <-. split; [vm_compute; discriminate|]. exists 1%nat. split; [lia|]. split; [reflexivity|].
+  vm_compute. reflexivity.
+Qed.
+Example ex_master_cc_run :
+  exists sfull rfull, mapply_all (m_init, mv_init) f7_cc_example = Some (sfull, rfull) /\ m_parts (fst sfull) = [0; 1].
+Proof.
+  destruct (mapply_all (m_init, mv_init) f7_cc_example) as [[s r]|] eqn:E; [|vm_compute in E; discriminate].
+  exists s, r. split; [reflexivity|]. vm_compute in E. injection E as <- _. reflexivity.
 Qed.
